@@ -183,6 +183,16 @@ def run_case(route, shape, bpv, bs, d, idx):
                     R.violation('oracle', inp, f'{name}({k}) differs from the ZFP image of the edge-extended source although read_volume() agrees')
                     break
             else:
+                # ... and through the per-trace path (trace ordinals of every crossline, last inline; the main diagonal)
+                try:
+                    for t_ in sorted({(n0 - 1) * n1 + x_ for x_ in range(n1)} | {0, n1 - 1, n1, (n0 * n1) // 2}):
+                        if not bits_equal(r.get_trace(t_), want[t_ // n1, t_ % n1]):
+                            R.violation('oracle', inp, f'get_trace({t_}) differs from the ZFP image of the edge-extended source although read_volume() agrees')
+                            break
+                    if not bits_equal(r.read_correlated_diagonal(0), np.stack([want[k_, k_] for k_ in range(min(n0, n1))])):
+                        R.violation('oracle', inp, 'read_correlated_diagonal(0) differs from the ZFP image of the edge-extended source although read_volume() agrees')
+                except Exception as e_:
+                    R.violation('oracle', inp, f'reading the written cube trace by trace raised {type(e_).__name__}: {e_}')
                 # the cube read back slab by slab (4 inlines at a time, all slabs held until the end, as a caller assembling a
                 # volume does): the assembled cube is the same image
                 if n0 >= 8:
